@@ -205,6 +205,11 @@ def run(chk):
         cops = [0.5 * (SX + SYc) / np.sqrt(2) if (i == 0 or rng.random() < 0.3) else 0.5 * (SZ if i % 2 == 0 else SX) for i in range(L)]
         with_pt[0] = True
         hs[0] = hs[0] + rng.uniform(0.3, 1) * SYc
+        # environments of different strength on different sites (the process tensors then differ in their tensors and caps, not
+        # only in their basis transforms); the first case of every run has them on neighbouring sites
+        cops = [c_ * [1.0, 1.6, 0.6, 1.3, 0.8][i] for i, c_ in enumerate(cops)]
+        if it == 0:
+            with_pt[1] = True
         pts = [quiet(oqupy.pt_tempo_compute, oqupy.Bath(cops[i], corr), 0.0, N * dt, parameters=par, progress_type="silent")
                if with_pt[i] else None for i in range(L)]
         # uncoupled chain = independent single sites
